@@ -322,6 +322,8 @@ static inline Bytes zstd_comp(const Bytes &src, const Bytes *dict, int level) {
     ZSTD_CCtx *c = ZSTD_createCCtx(); size_t rv;
     if (dict && !dict->empty()) rv = ZSTD_compress_usingDict(c, out.data(), out.size(), src.data(), src.size(), dict->data(), dict->size(), level);
     else rv = ZSTD_compressCCtx(c, out.data(), out.size(), src.data(), src.size(), level);
+    // a "dictionary" that zstd refuses to load (dictionary magic followed by garbage): store the chunk compressed without it
+    if (ZSTD_isError(rv) && dict && !dict->empty()) rv = ZSTD_compressCCtx(c, out.data(), out.size(), src.data(), src.size(), level);
     ZSTD_freeCCtx(c); out.resize(ZSTD_isError(rv) ? 0 : rv); return out;
 }
 
